@@ -59,6 +59,12 @@ def origin(e, depth=0):
     return {'unknown'}
 
 
+def _strip(e):
+    while e[0] == 'call' and e[2] and e[1].endswith(('::clone', '::deref', '::borrow', '::as_ref')):
+        e = e[2][0]
+    return e
+
+
 def _split_top(s):
     out, depth, cur = [], 0, ''
     for ch in s:
@@ -170,6 +176,38 @@ def wp(ctx):
                     out.append(bad(R, key, 'the waker left in `%s` is made out of nothing (`%s`): whoever fires this slot wakes nobody' % (slot, b), loc=fn.loc(bb, i), fn=fn.name))
                 else:
                     out.append(ok(R, key, 'slot receives a waker from %s' % sorted(o), loc=fn.loc(bb, i), fn=fn.name))
+    # the crate's own wakers point at the right party: a WakeQueue / WakeThread names the queue that the same body takes jobs from, and a
+    # WakeThread names the thread that is about to park - `thread::current()` evaluated there, not a handle remembered from elsewhere
+    n_w = 0
+    for fn in F.crate_fns():
+        recv = set()
+        for bb, t in fn.calls():
+            nm = t['func'].get('fn') or ''
+            if not fn.blocks[bb]['cleanup'] and nm.endswith(('JobQueue::drain', 'JobQueue::dequeue', 'JobQueue::requeue', 'JobQueue::run_one_job_now')) and t['args']:
+                recv.add(render(_strip(fn.expr_of_operand(t['args'][0]))))
+        for bb, b_ in enumerate(fn.blocks):
+            if b_['cleanup']:
+                continue
+            for i, s_ in enumerate(b_['stmts']):
+                if s_['k'] == 'assign' and s_['rv']['k'] == 'agg' and s_['rv'].get('adt') in ('desync::WakeThread', 'desync::WakeQueue'):
+                    e = fn.expr_of_rvalue(s_['rv'])
+                    kind = s_['rv']['adt'].split('::')[-1]
+                    n_w += 1
+                    q = render(_strip(e[3][0])) if e[3] else '?'
+                    key = '%s|%s-target' % (short(fn.root or fn.name), kind)
+                    probs = []
+                    if recv and q not in recv:
+                        probs.append('the %s is built for `%s` while the jobs run here come from `%s`: a wake-up resumes another queue' % (kind, q, sorted(recv)[0]))
+                    if kind == 'WakeThread':
+                        th = _strip(e[3][1]) if len(e[3]) > 1 else ('?',)
+                        if not (th[0] == 'call' and th[1].endswith('thread::current') or (th[0] == 'call' and th[1].endswith('::current') and 'thread' in th[1])):
+                            probs.append('the thread to unpark is `%s`, not `thread::current()` of the thread that is about to park: the parked thread is never unparked' % render(th)[:50])
+                    if probs:
+                        out.append(bad(R, key, '; '.join(probs), loc=fn.loc(bb, i), fn=fn.name))
+                    else:
+                        out.append(ok(R, key, '%s built for the queue whose jobs are run here%s' % (kind, ' and for the current thread' if kind == 'WakeThread' else ''), loc=fn.loc(bb, i), fn=fn.name))
+    if n_w < 3:
+        out.append(undecided(R, 'floor:crate-wakers', 'found %d constructions of WakeQueue / WakeThread, expected at least 3' % n_w))
     # several uses of one kind in one function: number them so that every instance keeps its own verdict
     seen = {}
     for inst in out:
